@@ -134,6 +134,7 @@ type Sched struct {
 	objs     []interface{ keyString(*Sched) string }
 	arrival  int
 	labels   map[uintptr]string
+	atom   map[uintptr]*Mutex // one mutex per variable accessed through sync/atomic
 	keep     []interface{}
 	Events   []string
 	Notes    []string
